@@ -16,6 +16,8 @@ pub struct TCell {
     pub br_after: Vec<usize>,
     pub nested: Option<Box<TTable>>,
     pub th: bool,
+    /// every <br>-separated segment becomes a <p> of its own (blank line between them)
+    pub paras: bool,
 }
 
 impl TCell {
@@ -60,13 +62,26 @@ impl TTable {
             let mut cells = Vec::new();
             for c in row {
                 let mut content: Vec<Node> = Vec::new();
-                for (i, w) in c.words.iter().enumerate() {
-                    if i > 0 && !c.br_after.contains(&(i - 1)) {
-                        content.push(Node::Space);
+                if c.paras {
+                    let mut seg: Vec<Node> = Vec::new();
+                    for (i, w) in c.words.iter().enumerate() {
+                        if !seg.is_empty() {
+                            seg.push(Node::Space);
+                        }
+                        seg.push(Node::Word(w.clone()));
+                        if c.br_after.contains(&i) || i + 1 == c.words.len() {
+                            content.push(El::with("p", std::mem::take(&mut seg)).node());
+                        }
                     }
-                    content.push(Node::Word(w.clone()));
-                    if c.br_after.contains(&i) {
-                        content.push(El::new("br").node());
+                } else {
+                    for (i, w) in c.words.iter().enumerate() {
+                        if i > 0 && !c.br_after.contains(&(i - 1)) {
+                            content.push(Node::Space);
+                        }
+                        content.push(Node::Word(w.clone()));
+                        if c.br_after.contains(&i) {
+                            content.push(El::new("br").node());
+                        }
                     }
                 }
                 if let Some(n) = &c.nested {
@@ -200,6 +215,7 @@ pub fn make_cell(rng: &mut Rng, tok: &mut Tokens, kind: Content, span: usize, wi
         br_after,
         nested: None,
         th: rng.chance(1, 8),
+        paras: false,
     }
 }
 
@@ -666,6 +682,56 @@ pub fn check_cells(t: &TTable, grid: &[Vec<char>], cells_checked: &mut u64) -> O
                     format!(
                         "row {} cell {} (columns x={}..{}): expected text {:?} inside its rectangle, found {:?}",
                         r, ci, x0, x1, exp, got
+                    ),
+                );
+            }
+        }
+    }
+    None
+}
+
+/// Cell containment when the bars cannot be trusted: rectangles come from the
+/// hooked column allocation (each cell is rendered in a sub-renderer of exactly
+/// that width).  None if the output cannot be cut into row bands.
+pub fn check_cells_by_allocation(t: &TTable, grid: &[Vec<char>], lay: &Layout, cells_checked: &mut u64) -> Option<Finding> {
+    let n = grid.len();
+    let rule_idx: Vec<usize> = (0..n).filter(|&y| is_rule_line(&grid[y])).collect();
+    let vis = t.visible_rows();
+    let b = t.boundaries();
+    let ncol = b.len() - 1;
+    if !lay.from_hook || rule_idx.len() != vis.len() + 1 || lay.col_widths.len() != ncol || lay.col_widths.iter().any(|&x| x == 0) {
+        return None;
+    }
+    let mut start = vec![0usize; ncol + 1];
+    for i in 0..ncol {
+        start[i + 1] = start[i] + lay.col_widths[i] + 1;
+    }
+    for (band, &r) in vis.iter().enumerate() {
+        let y0 = rule_idx[band] + 1;
+        let y1 = rule_idx[band + 1];
+        let mut c = 0;
+        for (ci, cell) in t.rows[r].iter().enumerate() {
+            let a = b.iter().position(|&x| x == c).unwrap();
+            let e = b.iter().position(|&x| x == c + cell.span).unwrap();
+            c += cell.span;
+            let x0 = start[a];
+            let x1 = start[e] - 1;
+            let mut got = String::new();
+            for line in grid.iter().take(y1).skip(y0) {
+                for x in x0..x1.min(line.len()) {
+                    if in_t(line[x]) {
+                        got.push(line[x]);
+                    }
+                }
+            }
+            let exp: String = cell.text().chars().filter(|c| in_t(*c) && cw(*c) > 0).collect();
+            *cells_checked += 1;
+            if got != exp {
+                return finding(
+                    "cell-text-outside-allocated-columns",
+                    format!(
+                        "row {} cell {}: the allocation {:?} gives it columns x={}..{}; expected text {:?} there, found {:?}",
+                        r, ci, lay.col_widths, x0, x1, exp, got
                     ),
                 );
             }
